@@ -33,6 +33,7 @@ import CnvVerif.Driver.Vcf
 import CnvVerif.Driver.VcfExt
 import CnvVerif.Driver.Descriptives
 import CnvVerif.Driver.DescLoopExt5
+import CnvVerif.Driver.SmoothIterExt5b
 import CnvVerif.Driver.Haar
 import CnvVerif.Driver.HaarExt
 import CnvVerif.Driver.Stats
@@ -42,7 +43,7 @@ import CnvVerif.Driver.RangesExt
 open Lean CnvVerif.Drv
 
 def handlers : List (String → Json → Option Json → R (Option Json)) :=
-  [handleInterval, handleRangesExt, handleCall, handleCallCmd, handleSegFilter, handleSegFilterExt, handleTile, handleCenter, handleSexExt, handleFix, handleAccess, Genes.handleGenes, handleFormats, handleFormatsExt, handleExport, handleExportExt, C20Ci.handleExportCi, Reference.handleReference, handleCoverage, handleCoverageExt, handleEffects, handleEffectsExt, handleBins, handleVcf, handleVcfExt, handleDescriptives, Haar.handleHaar, HaarExt.handleHaarExt, handleStats, handleStatsGlue, handleStatsExt5, handleSegFilterExt5, handleAccessExt5, handleDescLoopExt5, ReferenceExt5.handleReferenceExt5, handleCallWhole, handleCallWrappers, handleCoverageExt5Cols, handleFormatsLabel, handleFixExt5, GeneExt.handleGeneExt]
+  [handleInterval, handleRangesExt, handleCall, handleCallCmd, handleSegFilter, handleSegFilterExt, handleTile, handleCenter, handleSexExt, handleFix, handleAccess, Genes.handleGenes, handleFormats, handleFormatsExt, handleExport, handleExportExt, C20Ci.handleExportCi, Reference.handleReference, handleCoverage, handleCoverageExt, handleEffects, handleEffectsExt, handleBins, handleVcf, handleVcfExt, handleDescriptives, Haar.handleHaar, HaarExt.handleHaarExt, handleStats, handleStatsGlue, handleStatsExt5, handleSegFilterExt5, handleAccessExt5, handleDescLoopExt5, ReferenceExt5.handleReferenceExt5, handleCallWhole, handleCallWrappers, handleCoverageExt5Cols, handleFormatsLabel, handleFixExt5, GeneExt.handleGeneExt, handleSmoothIterExt5b]
 
 def dispatch (op : String) (inp : Json) (impl : Option Json) : R Json := do
   for h in handlers do
